@@ -216,6 +216,108 @@ def combine_suite(res, tier, seed):
         res._combine_bad = [cases[i] for i in bad[:5]]
 
 
+def operator_order_case(i_seed):
+    """types written with the Python operators & | ^ over data classes, Rules and plain types (1-2 levels): the leaves of the
+    constructed type appear in the written order, and for & the value is what applying the arguments one after the other gives"""
+    import operator, typing
+    from utype import Schema, DataClass, Rule, Options
+    from utype.parser.rule import LogicalType
+    from utype.utils.transform import type_transform
+    warnings.simplefilter("ignore")
+    rng = random.Random(i_seed)
+    U = type("OpU", (Schema,), {"__annotations__": {"name": str, "age": int}, "age": 0})
+    D = type("OpD", (DataClass,), {"__annotations__": {"a": int}, "a": 0})
+    R1 = Rule.annotate(str, constraints=dict(max_length=3))
+    R2 = Rule.annotate(dict, str, str)
+    R3 = Rule.annotate(int, constraints=dict(ge=0))
+    R4 = Rule.annotate(dict, constraints=dict(max_length=2))
+    aware = [U, D, R1, R2, R3, R4]
+    plain = [int, dict, str, float]
+    names = {id(x): n for x, n in zip(aware + plain, ["U", "D", "R1", "R2", "R3", "R4", "int", "dict", "str", "float"])}
+    OPS = {"&": operator.and_, "|": operator.or_, "^": operator.xor}
+
+    used = []
+
+    def sub():
+        a = rng.choice([x for x in aware if x not in used])
+        used.append(a)
+        if rng.random() < 0.5:
+            return a, [a]
+        b = rng.choice([x for x in aware + plain if x not in used])
+        used.append(b)
+        o = rng.choice("&|^")
+        if rng.random() < 0.5 or b in plain:
+            return OPS[o](a, b), [a, b]
+        return OPS[o](b, a), [b, a]
+    try:
+        L, ll = sub()
+        if rng.random() < 0.3:
+            R = rng.choice([x for x in plain if x not in used]); rl = [R]
+        else:
+            R, rl = sub()
+        op = rng.choice("&|^")
+        T = OPS[op](L, R)
+    except Exception as e:
+        return ("skip", type(e).__name__)
+
+    def leaves(t, depth=0):
+        if id(t) in names:
+            return [names[id(t)]]
+        out = []
+        if isinstance(t, LogicalType) and depth < 6:
+            if getattr(t, "combinator", None):
+                for a in t.args:
+                    out += leaves(a, depth + 1)
+            else:
+                o = getattr(t, "__origin__", None)
+                if o is not None:
+                    out += leaves(o, depth + 1)
+        elif typing.get_origin(t) is typing.Union or type(t).__name__ == "UnionType":
+            for a in typing.get_args(t):
+                out += leaves(a, depth + 1)
+        return out
+    want = [names[id(x)] for x in ll + rl]
+    got = leaves(T)
+    if got != want:
+        return ("order", "%s written as (%s) %s (%s): the constructed type %r holds its leaves in the order %r, written %r" % (
+            "type", " ".join(names[id(x)] for x in ll), op, " ".join(names[id(x)] for x in rl), T, got, want))
+    if op == "&" and len(ll) == 1 and len(rl) == 1:
+        v = rng.choice([{"name": "x", "age": "3"}, {"name": "x", "age": 3, "extra": 1}, {"a": "1"}, "ab", "abcd", 5, "5", -1, {"k": "v"}, '{"name": "bob"}'])
+        def seq():
+            x = v
+            for a in ll + rl:
+                x = type_transform(x, a)
+            return x
+        try:
+            w = ("ok", repr(seq()))
+        except Exception:
+            w = ("rejected",)
+        try:
+            g = ("ok", repr(type_transform(v, T)))
+        except Exception:
+            g = ("rejected",)
+        if g != w:
+            return ("value", "%s & %s on %r gives %r; applying the arguments in order gives %r" % (want[0], want[1], v, g, w))
+    return ("ok", None)
+
+
+def operator_suite(res, tier, seed):
+    n = 2500 if tier == "quick" else 40000
+    outs = core.pool_map(operator_order_case, [seed * 1000099 + i for i in range(n)])
+    agg, bad = {}, []
+    for o in outs:
+        if isinstance(o, tuple):
+            agg[o[0]] = agg.get(o[0], 0) + 1
+            if o[0] in ("order", "value"):
+                bad.append(o[1])
+    res.add_suite("operator-order", n, n, ["seeded expressions over a Schema, a DataClass, four Rules and int / dict / str / float"],
+                  "types written with & | ^ (one or two levels, a data class, a Rule or a plain type on either side): the leaves of the "
+                  "constructed type must appear in the written order; for a two-argument & the result on an input must be what "
+                  "applying the first argument and then the second gives", dict(failures=len(bad), outcomes=agg))
+    for m in bad[:3]:
+        res.violations.append(dict(case=repr(dict(kind="operator-order")), observed=m, what=m))
+
+
 def main(tier, seed):
     warnings.simplefilter("ignore")
     res = core.Result(PID, tier, seed)
@@ -231,6 +333,7 @@ def main(tier, seed):
     mism = parsesuite.run_suite(res, cases, "logic") or []
     if core.build(["Model/Combine.vo"])["ok"]:
         combine_suite(res, tier, seed)
+    operator_suite(res, tier, seed)
     # the property itself on the implementation
     m = 2500 if tier == "quick" else 30000
     ocases = [gen_logic_case(rng) for _ in range(m)]
